@@ -1,6 +1,7 @@
 package props
 
 import (
+	"encoding/json"
 	"errors"
 	"fmt"
 	"strings"
@@ -10,6 +11,7 @@ import (
 	"verif/harness/refstore"
 
 	"github.com/freeconf/yang/node"
+	"github.com/freeconf/yang/nodeutil"
 	"github.com/freeconf/yang/parser"
 )
 
@@ -106,7 +108,63 @@ func decodeEvents(s string) string {
 	return strings.Join(out, " ")
 }
 
+// a schema whose leaves, container and list entries carry conditions: evaluating a condition reads its operand
+// through the node's Field callback, and that read can fail like any other
+const c12whenYang = `module m { namespace "urn:m"; prefix m; revision 2020-01-01;
+  leaf f1 { type int32; } leaf f2 { when "f1>10"; type string; }
+  container c3 { leaf f4 { type int32; } leaf f5 { when "f4>0"; type string; } container c6 { when "f7>3"; leaf f7 { type int32; } leaf f8 { type string; } } }
+  list l9 { key k10; leaf k10 { type string; } leaf f11 { type int32; } leaf f12 { when "f11>5"; type string; } }
+}`
+
+func c12whenCase() (*dataCase, error) {
+	lf := func(n, t string) *gen.SNode { return &gen.SNode{Name: n, Kind: "leaf", Type: t} }
+	kids := []*gen.SNode{lf("f1", "int32"), lf("f2", "string"),
+		{Name: "c3", Kind: "cont", Kids: []*gen.SNode{lf("f4", "int32"), lf("f5", "string"), {Name: "c6", Kind: "cont", Kids: []*gen.SNode{lf("f7", "int32"), lf("f8", "string")}}}},
+		{Name: "l9", Kind: "list", NKeys: 1, Kids: []*gen.SNode{lf("k10", "string"), lf("f11", "int32"), lf("f12", "string")}}}
+	m, err := parser.LoadModuleFromString(nil, c12whenYang)
+	if err != nil {
+		return nil, err
+	}
+	return &dataCase{kids, c12whenYang, m}, nil
+}
+
+// directed: edits that have to create a node whose condition cannot hold yet - whatever they return, they return
+func c12whenProbe(c *core.Ctx) {
+	dc, err := c12whenCase()
+	if err != nil {
+		c.Violation(core.Replay{Kind: "harness", Summary: "c12 when module: " + err.Error(), NoInputFound: true})
+		return
+	}
+	for _, doc := range []string{`{"c3":{"c6":{}}}`, `{"c3":{"c6":{"f7":5,"f8":"x"}}}`, `{"c3":{"c6":{"f7":1}}}`, `{"f2":"x"}`, `{"f1":20,"f2":"x"}`, `{"l9":[{"k10":"a","f12":"x"}]}`, `{"l9":[{"k10":"a","f11":9,"f12":"x"}]}`, `{"c3":{"f5":"x"}}`} {
+		for _, op := range []string{"upsert", "insert", "update"} {
+			for _, tgt := range []string{`{}`, `{"c3":{}}`, `{"f1":20,"c3":{"f4":1,"c6":{"f7":9}},"l9":[{"k10":"a","f11":9}]}`} {
+				c.Evaluations++
+				c.Count("when_probe", op)
+				err := safeDo(func() error {
+					var tm map[string]interface{}
+					if e := json.Unmarshal([]byte(tgt), &tm); e != nil {
+						return e
+					}
+					src, e := nodeutil.ReadJSON(doc)
+					if e != nil {
+						return e
+					}
+					if e := applyEdit(node.NewBrowser(dc.m, nodeutil.ReflectChild(tm)).Root(), op, src); e != nil && strings.Contains(e.Error(), "PANIC") {
+						return e
+					}
+					return nil
+				})
+				if err != nil && strings.Contains(err.Error(), "PANIC") {
+					c.Violation(core.Replay{Kind: "property-failure", Class: "when-probe-panic-" + op, Summary: fmt.Sprintf("%s of %s into %s: %v", op, doc, tgt, err),
+						Input: map[string]interface{}{"yang": dc.yang, "op": op, "document": doc, "target": tgt}})
+				}
+			}
+		}
+	}
+}
+
 func C12(c *core.Ctx) {
+	c12whenProbe(c)
 	c.Rule = "edit scenarios (strategy upsert/insert/update through the From and the Into entry points, replace and delete; generated schema and trees; entry point root / container / list entry so that the edit root has 0–3 ancestors) on recording reference stores for source and target; each scenario runs once fault-free to learn its K node callbacks, then K more times with callback k = 1…K failing (exhaustive per scenario); trace (Begin/End/other with the failing one marked) and result are compared with the Lean bracket model, and errors.As must find the injected error. non-trivial = faulted run whose failing callback is not the first; distinct by (scenario, k)"
 	c.Assumptions = append(c.Assumptions,
 		"the scenario tree is parsed from the fault-free trace of the real code: consecutive Begin events form one bubbling group",
@@ -140,6 +198,9 @@ func C12(c *core.Ctx) {
 				return
 			}
 			dc = &dataCase{kids, y, m}
+		} else if si%8 == 5 {
+			dc, err = c12whenCase()
+			c.Count("schema", "with conditions")
 		} else {
 			dc, err = newDataCase(r, o)
 		}
@@ -192,6 +253,27 @@ func C12(c *core.Ctx) {
 				childIdx = core.Pick(r, cands)
 			}
 		}
+		// the start selection may be a single leaf of the entry point (Find("a/b/x") then UpsertFrom / UpsertInto ...)
+		leafStart := ""
+		if !withChoice && childIdx < 0 && r.Chance(25) {
+			var cands []int
+			for i, s := range loc.kids {
+				if s.Kind == "leaf" && strings.HasPrefix(s.Name, "f") && !s.LeafList {
+					cands = append(cands, i)
+				}
+			}
+			if len(cands) > 0 {
+				li := core.Pick(r, cands)
+				leafStart = loc.kids[li].Name
+				if src0[li].Leaf == nil {
+					v := "7"
+					if loc.kids[li].Type != "int32" {
+						v = "leafstart"
+					}
+					src0[li].Leaf = &v
+				}
+			}
+		}
 		runOnce := func(failAt int) (*refstore.Recorder, error) {
 			rec := &refstore.Recorder{FailAt: failAt}
 			tgt := gen.Clone(tgt0)
@@ -209,6 +291,16 @@ func C12(c *core.Ctx) {
 						return fmt.Errorf("entry point: %v", err)
 					}
 					sel = s
+				}
+				if leafStart != "" {
+					saved := *rec
+					rec.FailAt = 0
+					ls, err := sel.Find(leafStart)
+					*rec = saved
+					if err != nil || ls == nil {
+						return fmt.Errorf("leaf start selection: %v", err)
+					}
+					sel = ls
 				}
 				switch op {
 				case "delete", "replace":
@@ -242,6 +334,9 @@ func C12(c *core.Ctx) {
 					rec.FailAt = 0
 					sb := node.NewBrowser(dc.m, refstore.NewBody(rec, dc.kids, srcFull, "src:"))
 					ssel, err := sb.Root().Find(loc.path)
+					if err == nil && ssel != nil && leafStart != "" {
+						ssel, err = ssel.Find(leafStart)
+					}
 					*rec = saved
 					if err != nil || ssel == nil {
 						return fmt.Errorf("source entry point: %v", err)
@@ -261,7 +356,8 @@ func C12(c *core.Ctx) {
 		}
 		free, ferr := runOnce(0)
 		if ferr != nil && strings.Contains(ferr.Error(), "PANIC") {
-			c.Violation(core.Replay{Kind: "property-failure", Class: "panic-faultfree", Summary: "fault-free run panicked: " + ferr.Error(), Input: dc.yang})
+			c.Violation(core.Replay{Kind: "property-failure", Class: "panic-faultfree", Summary: fmt.Sprintf("%s at %q (leaf start %q): fault-free run panicked: %v", op, loc.path, leafStart, ferr),
+				Input: map[string]interface{}{"yang": dc.yang, "op": op, "entry": loc.path, "leaf_start": leafStart, "source": gen.Canon(loc.kids, src0, false), "target": gen.Canon(dc.kids, tgt0, false), "trace": decodeEvents(c12events(free))}})
 			continue
 		}
 		if ferr != nil {
@@ -326,9 +422,12 @@ func C12(c *core.Ctx) {
 		if withChoice {
 			c.Count("scenario", "choice-upsert")
 		}
+		if leafStart != "" {
+			c.Count("scenario", op+"-leaf-start")
+		}
 		c.Count("scenario", op+"-"+loc.kind)
 		c.Count("callbacks", fmt.Sprint((K/20)*20, "+"))
-		input := map[string]interface{}{"yang": dc.yang, "op": op, "entry": loc.path, "source": gen.Canon(loc.kids, src0, false), "target": gen.Canon(dc.kids, tgt0, false), "faultfree_trace": decodeEvents(c12events(free))}
+		input := map[string]interface{}{"yang": dc.yang, "op": op, "entry": loc.path, "leaf_start": leafStart, "source": gen.Canon(loc.kids, src0, false), "target": gen.Canon(dc.kids, tgt0, false), "faultfree_trace": decodeEvents(c12events(free))}
 		for k := 1; k <= K; k++ {
 			rec, err := runOnce(k)
 			c.Evaluations++
